@@ -512,7 +512,7 @@ func (p mcParams) consts() map[string]string {
 		"MODE": p.Mode, "LANG": strconv.Itoa(p.Lang), "MAXCHARS": strconv.Itoa(p.MaxChars), "FULLCHARS": strconv.Itoa(p.FullChars),
 		"CHARS": setLit(p.Chars), "CHARS2": setLit(p.Chars2), "MAXTOKS": strconv.Itoa(p.MaxToks), "PRUNE": boolTLA(p.Prune),
 		"EMITEVERY": strconv.Itoa(p.EmitEvery), "MAXW": strconv.Itoa(p.MaxW), "MAXCOMBS": strconv.Itoa(p.MaxCombs),
-		"MUTW": strconv.Itoa(p.MutW), "SEM": boolTLA(p.Sem), "TOKSEL": p.TokSel, "FOCUS": boolTLA(p.Focus),
+		"MUTW": strconv.Itoa(p.MutW), "SEM": boolTLA(p.Sem), "TOKSEL": p.TokSel, "FOCUS": boolTLA(p.Focus), "SEMNAMES": "FALSE",
 	}
 }
 
